@@ -65,7 +65,7 @@ extern MPT_STRUCT(buffer) *mpt_array_reserve(MPT_STRUCT(array) *arr, size_t len,
 				if (used > len) {
 					used = len;
 				}
-				if (used && !mpt_buffer_set(reserve, traits, used, buf + 1, 0)) {
+				if (used && mpt_buffer_set(reserve, traits, 0, buf + 1, used) < 0) {
 					reserve->_vptr->unref(reserve);
 					return 0;
 				}
